@@ -94,6 +94,22 @@ Theorem json_map_key_reveals : forall s,
   render opaque PJson SMapKey s = "{" ++ json_quote true s ++ ":" ++ dquote ++ "v" ++ dquote ++ "}".
 Proof. exact json_map_key_l. Qed.
 
+(* marshalling into a configuration map: an ARRAY of opaque strings is left as the typed Go value
+   (finding C14-CONFMAP-ARRAY: the map does not hold the marker there, for any secret) ... *)
+Theorem confmap_array_not_redacted : forall s,
+  render opaque PConfmap (SField true (SArray SBare)) s = "{f:<raw [1]configopaque.String>}".
+Proof. exact confmap_array_l. Qed.
+
+(* ... while the typed content that a NESTED struct implementing confmap.Marshaler merges into its
+   Conf is run through the encoder and comes out as the marker (in general: render_noninterference_partial
+   and render_shows_marker cover [SMarsh] at any nesting) *)
+Theorem confmap_nested_marshaler_redacted : forall s,
+  render opaque PConfmap (SField true (SMarsh SBare)) s = "{f:{v:" ++ dquote ++ "[REDACTED]" ++ dquote ++ "}}" /\
+  render opaque PConfmap (SField true (SMarsh (SMapVal SBare))) s = "{f:{v:{k:" ++ dquote ++ "[REDACTED]" ++ dquote ++ "}}}" /\
+  render opaque PConfmap (SPtr (SMarsh (SSlice SBare))) s
+    = "{v:[" ++ dquote ++ "[REDACTED]" ++ dquote ++ "," ++ dquote ++ "[REDACTED]" ++ dquote ++ "]}".
+Proof. exact confmap_marshaler_l. Qed.
+
 (* ---- "all of these render the fixed redaction marker" -----------------------------------------
    Wherever the value is printed at all ([shows p sh]: not cut off by a pointer printed as an
    address, an omitted unexported field, an array left raw by the config-map encoder), the output
@@ -165,6 +181,8 @@ Print Assumptions fmt_unrouted_verb_reveals_any_flags.
 Print Assumptions fmt_unexported_field_reveals.
 Print Assumptions fmt_inner_pointer_reveals.
 Print Assumptions json_map_key_reveals.
+Print Assumptions confmap_array_not_redacted.
+Print Assumptions confmap_nested_marshaler_redacted.
 Print Assumptions render_shows_marker.
 Print Assumptions opaque_leaf_is_marker.
 Print Assumptions opaque_render_shows_redacted.
